@@ -130,14 +130,14 @@ Definition eff_bc (order : nat) (b : bc) : bc := match order with O => NoBC | _ 
 Lemma fd_op_1d order n b :
   option_map fst (fd_op order (NInt n) b None) = fd_matrix order b n.
 Proof.
-  unfold fd_op. change (Qeq_bool 1 0) with false. cbv iota.
+  unfold fd_op, fd_op_gen. change (Qeq_bool 1 0) with false. cbv iota.
   destruct (fd_matrix order b n); reflexivity.
 Qed.
 
 Lemma diff_of_order_1d order n b : (order <= 2)%nat ->
   diff_of_order order (NInt n) b = fd_matrix (eff_order order) (eff_bc order b) n.
 Proof.
-  intros H. destruct order as [|[|[|o]]]; [| | |lia]; cbn [diff_of_order eff_order eff_bc]; apply fd_op_1d.
+  intros H. destruct order as [|[|[|o]]]; [| | |lia]; unfold diff_of_order; cbn [diff_of_order_gen eff_order eff_bc]; apply fd_op_1d.
 Qed.
 
 Lemma gmrf_init_1d_inv dim b order g : gmrf_init 1 dim b order = Some g ->
@@ -146,7 +146,7 @@ Lemma gmrf_init_1d_inv dim b order g : gmrf_init 1 dim b order = Some g ->
     g_prec g = gram dim D /\ g_diff g = D /\
     ((b = Zero /\ g_rank g = dim) \/ ((b = Periodic \/ b = Neumann) /\ g_rank g = (dim - 1)%nat)).
 Proof.
-  unfold gmrf_init, prec_op. cbn [mrf_nodes nodes_dim].
+  unfold gmrf_init, gmrf_init_gen, prec_op_gen. fold diff_of_order. cbn [mrf_nodes nodes_dim].
   destruct (dim =? 1)%nat eqn:E1; [discriminate|].
   destruct (le_lt_dec order 2) as [Ho|Ho].
   - rewrite diff_of_order_1d by exact Ho.
@@ -154,7 +154,7 @@ Proof.
     cbn [option_map]. intros H. exists D.
     destruct b; try discriminate; injection H as <-; cbn [g_prec g_diff g_rank];
       repeat split; try lia; auto.
-  - destruct order as [|[|[|o]]]; try lia. cbn [diff_of_order]. discriminate.
+  - destruct order as [|[|[|o]]]; try lia. unfold diff_of_order. cbn [diff_of_order_gen]. discriminate.
 Qed.
 
 Lemma null_cond_eff order b x : (order <= 2)%nat -> gmrf_rank_defect order b (length x) = false ->
@@ -214,7 +214,7 @@ Lemma gmrf_init_1d_fwd dim b order D : (order <= 2)%nat -> dim <> 1%nat ->
   gmrf_init 1 dim b order =
   Some (mkG (match b with Zero => dim | _ => dim - 1 end) (gram dim D) D).
 Proof.
-  intros Ho H1 HD Hb. unfold gmrf_init, prec_op. cbn [mrf_nodes nodes_dim].
+  intros Ho H1 HD Hb. unfold gmrf_init, gmrf_init_gen, prec_op_gen. fold diff_of_order. cbn [mrf_nodes nodes_dim].
   destruct (dim =? 1)%nat eqn:E1; [lia|]. rewrite diff_of_order_1d, HD by exact Ho. cbn [option_map].
   destruct Hb as [-> | [-> | ->]]; reflexivity.
 Qed.
